@@ -3,7 +3,30 @@ module path): a custom Persistent class and a failing second resource manager.""
 import persistent
 
 
-class Node(persistent.Persistent):
+from persistent.list import PersistentList
+from persistent.mapping import PersistentMapping
+
+# python ids of the objects whose state currently cannot be pickled (set by the harness around one
+# commit; nothing is stored on the object itself, so "repairing" it does not mark it changed)
+PICKLE_FAIL = set()
+
+
+class _MaybeUnpicklable:
+    def __getstate__(self):
+        if id(self) in PICKLE_FAIL:
+            raise Injected('pickle')
+        return super().__getstate__()
+
+
+class PMap(_MaybeUnpicklable, PersistentMapping):
+    pass
+
+
+class PList(_MaybeUnpicklable, PersistentList):
+    pass
+
+
+class Node(_MaybeUnpicklable, persistent.Persistent):
     """custom persistent object: integer payload `v`, references in the tuple `refs`"""
 
     def __init__(self):
